@@ -37,6 +37,9 @@ type JobSpec struct {
 	MaxDepth     int                         `json:"max_depth"`
 	MaxPaths     int64                       `json:"max_paths"`
 	Bound        string                      `json:"bound"` // human-readable statement of the bound
+	ExploreSched bool                        `json:"explore_sched"` // fork over every choice among several ready select cases (arrival orders of worker results)
+	SchedBudget  int                         `json:"sched_budget"` // at most this many scheduling choices are forked per path (0 = all)
+	ReplayRepeat int                         `json:"replay_repeat"` // native replays are repeated up to this many times until one confirms (schedule-dependent behaviour)
 	Validate     int                         `json:"validate"` // replay every n-th ok path natively and compare observations (0 = default 1 per job)
 }
 
@@ -260,17 +263,23 @@ func cmdCheck(args []string) int {
 			}
 			file := filepath.Join(replayDir, fmt.Sprintf("%s_%s_%d.json", jr.Name, sanitize(v.Class+"_"+v.Kind), i))
 			rc := &replayCase{Entry: js.Entry, Params: jr.Params, Model: v.Model, Expect: map[string]string{"class": v.Class, "kind": v.Kind, "msg": v.Msg}}
-			res, err := rp.run(bin, rel, js.Setup, rc, file, 20*time.Second)
-			if err != nil {
-				fmt.Println(err)
-				v.Native = "not-run"
-				continue
+			reps := js.ReplayRepeat
+			if reps < 1 {
+				reps = 1
 			}
-			v.Replay = file
-			v.NativeO = tail(res.Output, 3000)
-			if confirms(v, res) {
-				v.Native = "confirmed"
-			} else {
+			for k := 0; k < reps; k++ {
+				res, err := rp.run(bin, rel, js.Setup, rc, file, 20*time.Second)
+				if err != nil {
+					fmt.Println(err)
+					v.Native = "not-run"
+					break
+				}
+				v.Replay = file
+				v.NativeO = tail(res.Output, 3000)
+				if confirms(v, res) {
+					v.Native = "confirmed"
+					break
+				}
 				v.Native = "not-reproduced"
 			}
 		}
@@ -442,7 +451,7 @@ func runJob(p *Program, js *JobSpec, params map[string]int64, workers int, solve
 			return jr
 		}
 	}
-	sh := &Shared{prog: p.prog, params: params, job: js.Name, paranoid: paranoid, verbose: verbose, maxPaths: js.MaxPaths, overrides: map[string]extFn{}}
+	sh := &Shared{prog: p.prog, params: params, job: js.Name, paranoid: paranoid, verbose: verbose, exploreSched: js.ExploreSched, schedBudget: js.SchedBudget, maxPaths: js.MaxPaths, overrides: map[string]extFn{}}
 	sh.cond = sync.NewCond(&sh.mu)
 	for _, o := range overrides {
 		tgt, repl := p.byName[o[0]], p.byName[o[1]]
